@@ -213,6 +213,37 @@ def run(chk):
     results = engine.pmap(sweep_worker, jobs) + engine.pmap(doc_worker, [(chk.seed, i) for i in range(ndocs)])
     results += engine.pmap(multi_worker, [(chk.seed, i) for i in range(core.budget(chk, full, 16, 160))])
     engine.settle(chk, results, model)
+    # a cell on which model and kernpy disagree is the first place to look for a failing input: run the property on it
+    import kernpy as kp
+    tried = 0
+    for br in list(chk.broken):
+        wit = br.get('witness')
+        if br.get('what') != 'kparse' or not isinstance(wit, (list, tuple)) or len(wit) != 2 or tried >= 60:
+            continue
+        cell = wit[1]
+        tried += 1
+        for text in (f'**kern\n*clefG2\n{cell}\n*-\n', f'**kern\t**kern\n*clefG2\t*clefF4\n{cell}\t4c\n{cell}\t{cell}\n*-\t*-\n'):
+            try:
+                d1, e1 = kp.loads(text)
+                if e1:
+                    break
+                t1 = kp.dumps(d1)
+                d2, e2 = kp.loads(t1)
+                t2 = kp.dumps(d2)
+                x1 = kp.dumps(d1, encoding=kp.Encoding.eKern)
+                d3, e3 = kp.loads(kp.get_kern_from_ekern(x1))
+                x2 = kp.dumps(d3, encoding=kp.Encoding.eKern)
+            except Exception:
+                break
+            if e2 or e3:
+                chk.violation('reimport-errors', f'the export of the cell {cell!r} (model and kernpy disagree on it) re-imports with errors', {'text': text})
+                break
+            if t1 != t2:
+                chk.violation('idempotent', f'the cell {cell!r} (model and kernpy disagree on it) exports {t1.split(chr(10))[2]!r}, then {t2.split(chr(10))[2]!r}', {'text': text})
+                break
+            if x1 != x2:
+                chk.violation('extended-idempotent', f'the cell {cell!r} (model and kernpy disagree on it): extended {x1.split(chr(10))[2]!r}, then {x2.split(chr(10))[2]!r}', {'text': text})
+                break
     chk.disagreements_checked = len(chk.broken)
 
 
